@@ -50,6 +50,11 @@ func (lalr *LALR1) ShowAndCheckConflict(state int, tranlist []Transistor) {
 func (lalr *LALR1) ResolveConflict(act01, act02 *Action) (*Action, error) {
 	act_first := act01
 	act_second := act02
+	// precedence decides between a shift and a reduction only: two reductions
+	// are a reduce/reduce conflict whatever precedence their rules have
+	if act01.ActionType == REDUCE && act02.ActionType == REDUCE {
+		return nil, fmt.Errorf("cannot resolve conflict")
+	}
 	// Reduce first, Shift Second
 	if act02.ActionType == REDUCE && act01.ActionType == SHIFT {
 		act_first = act02
